@@ -363,7 +363,10 @@ class Engine:
       if name == 'index':
         raise Unsupported('tuple.index')
     if isinstance(obj, (str, bytes)):
-      return getattr(obj, name)(*args, **kwargs)
+      try:
+        return getattr(obj, name)(*args, **kwargs)
+      except TypeError:
+        return StrV()  # e.g. sep.join(<symbolic strings>)
     raise Unsupported(f'method {name} on {obj!r}')
 
   # ------------------------------------------------------------- protocols
@@ -572,14 +575,24 @@ class Engine:
     return ref
 
   def e_JoinedStr(self, ctx, e):
+    parts = []
     for v in e.values:
-      if isinstance(v, ast.FormattedValue):
-        # evaluate for definedness of names only
+      if isinstance(v, ast.Constant):
+        parts.append(v.value)
+      elif isinstance(v, ast.FormattedValue):
+        spec = None
+        if v.format_spec is not None:
+          sp = v.format_spec
+          if all(isinstance(x, ast.Constant) for x in sp.values):
+            spec = ''.join(x.value for x in sp.values)
+          else:
+            spec = '?'
         try:
-          self.eval(ctx, v.value)
+          val = self.eval(ctx, v.value)
         except Unsupported:
-          pass
-    return StrV()
+          val = StrV()
+        parts.append((val, spec, v.conversion))
+    return FStrV(parts).normalized()
 
   def e_Attribute(self, ctx, e):
     v = self.eval(ctx, e.value)
